@@ -20,6 +20,7 @@ def run(cmd, cwd=None, env=None, timeout=3600):
 def main():
     prop, name, src = sys.argv[1], sys.argv[2], sys.argv[3]
     demo_cmd = None
+    needs = None
     extra_props = []
     args = sys.argv[4:]
     while args:
@@ -28,6 +29,8 @@ def main():
             demo_cmd = args.pop(0)
         elif a == "--also":
             extra_props.append(args.pop(0))
+        elif a == "--needs":
+            needs = args.pop(0)
     dest = os.path.join(ROOT, "seeded", name)
     os.makedirs(dest, exist_ok=True)
     shutil.copyfile(os.path.join(src, "patch.diff"), os.path.join(dest, "patch.diff"))
@@ -41,7 +44,7 @@ def main():
     shutil.rmtree(wt, ignore_errors=True)
     rc, out = run(f"git -C /repo worktree add {wt} HEAD")
     assert rc == 0, out
-    meta = {"property": prop, "name": name, "repo_head": run("git -C /repo rev-parse --short HEAD")[1].strip(), "ran": []}
+    meta = {"property": prop, "name": name, "needs_to_manifest": needs, "repo_head": run("git -C /repo rev-parse --short HEAD")[1].strip(), "ran": []}
     try:
         rc, out = run(f"git apply --check {dest}/patch.diff && git apply {dest}/patch.diff", cwd=wt)
         assert rc == 0, "patch does not apply: " + out
